@@ -304,3 +304,78 @@ func (fr *frame) keepPrivateInLoop(li *loopInfo, old Mem) {
 		}
 	}
 }
+
+// capturedMapsNonNil: for a closure, the captured variables of map type that are only ever assigned
+// make(...) anywhere in the enclosing function and its closures -- such a variable holds a non-nil
+// map whenever the closure runs after the assignment (which precedes the closure's creation if the
+// assignment dominates the MakeClosure; checked). Returned: indexes into fn.FreeVars.
+func capturedMapsNonNil(fn *ssa.Function) []int {
+	parent := fn.Parent()
+	if parent == nil {
+		return nil
+	}
+	// the MakeClosure of fn in its parent
+	var mc *ssa.MakeClosure
+	for _, b := range parent.Blocks {
+		for _, ins := range b.Instrs {
+			if m, ok := ins.(*ssa.MakeClosure); ok && m.Fn == fn {
+				mc = m
+			}
+		}
+	}
+	if mc == nil {
+		return nil
+	}
+	var out []int
+	for i, fv := range fn.FreeVars {
+		pt, ok := fv.Type().Underlying().(*types.Pointer)
+		if !ok {
+			continue
+		}
+		if _, isMap := under(pt.Elem()).(*types.Map); !isMap {
+			continue
+		}
+		al, ok := mc.Bindings[i].(*ssa.Alloc)
+		if !ok {
+			continue
+		}
+		okAll, dominated := true, false
+		var check func(v ssa.Value, owner *ssa.Function)
+		check = func(v ssa.Value, owner *ssa.Function) {
+			refs := v.Referrers()
+			if refs == nil {
+				return
+			}
+			for _, r := range *refs {
+				switch x := r.(type) {
+				case *ssa.Store:
+					if x.Addr == v {
+						if _, isMake := x.Val.(*ssa.MakeMap); !isMake {
+							okAll = false
+						} else if owner == parent && x.Block().Dominates(mc.Block()) {
+							dominated = true
+						}
+					} else {
+						okAll = false // the address itself is stored somewhere
+					}
+				case *ssa.MakeClosure:
+					// follow into the closure that captures it
+					cf := x.Fn.(*ssa.Function)
+					for j, bnd := range x.Bindings {
+						if bnd == v {
+							check(cf.FreeVars[j], cf)
+						}
+					}
+				case *ssa.UnOp, *ssa.DebugRef:
+				default:
+					okAll = false
+				}
+			}
+		}
+		check(al, parent)
+		if okAll && dominated {
+			out = append(out, i)
+		}
+	}
+	return out
+}
